@@ -613,7 +613,12 @@ class MacroProgram(ElementProgram):
                     self._maybe_trim(start['prefix']),
                     self._maybe_trim(start['suffix']),
                     nodes.Sequence(
-                        [attr for attr in attributes if
+                        # the attribute dictionaries that may override
+                        # a static attribute are not evaluated here
+                        [nodes.Attribute(
+                            attr.name, attr.expression, attr.quote,
+                            attr.eq, attr.space, attr.default, ())
+                         for attr in attributes if
                          isinstance(attr, nodes.Attribute) and
                          isinstance(attr.expression, ast.Constant) and
                          isinstance(attr.expression.value, str)]
